@@ -292,13 +292,103 @@ class Hosts:
         self.default = default
 
 
+AMBIENT_LOGGERS = ["", "esrally", "esrally.actor", "esrally.mechanic", "esrally.mechanic.mechanic", "esrally.mechanic.provisioner"]
+
+
+class _Sink:
+    def write(self, *_):
+        pass
+
+    def flush(self):
+        pass
+
+    def isatty(self):
+        return False
+
+
+class Ambient:
+    """Process-wide settings that the modelled handlers read but that must not change the protocol:
+    logger levels (root / esrally.actor / esrally.mechanic… at DEBUG…ERROR, or logging disabled as in the
+    framework's default), console verbosity, and how the binary is obtained (sources / distribution).
+    spec = None (framework default: logging disabled, quiet console, distribution) or
+    {"log": {"disable": bool, "levels": {logger name: level name}}, "console": "quiet" | "print",
+     "build": "distribution" | "sources" | "both"}; it is part of the case, so a replay reproduces it."""
+
+    def __init__(self, spec, sim):
+        self.spec, self.sim, self.active = spec, sim, False
+
+    def enter(self):
+        import logging
+
+        from esrally.utils import console
+
+        if not self.spec or self.active:
+            return
+        self.active = True
+        self.saved_disable = logging.root.manager.disable
+        self.saved_levels = {n: logging.getLogger(n).level for n in AMBIENT_LOGGERS}
+        self.saved_console = (console.QUIET, console.RALLY_RUNNING_IN_DOCKER)
+        self.saved_stdout = None
+        log = self.spec.get("log") or {}
+        sim = self.sim
+
+        class Handler(logging.Handler):
+            def emit(self, record):  # format like a real handler would, so that lazily evaluated arguments are evaluated
+                try:
+                    self.format(record)
+                except Exception as e:  # pylint: disable=broad-except
+                    sim.anomaly(f"log record cannot be formatted: {type(e).__name__}: {e}")
+
+        self.handler = Handler()
+        self.handler.setFormatter(logging.Formatter("%(asctime)s %(name)s %(levelname)s %(message)s"))
+        logging.getLogger().addHandler(self.handler)
+        if not log.get("disable", False):
+            logging.disable(logging.NOTSET)
+            for name, level in (log.get("levels") or {}).items():
+                logging.getLogger(name).setLevel(getattr(logging, level))
+        if self.spec.get("console") == "print":
+            import sys
+
+            console.QUIET, console.RALLY_RUNNING_IN_DOCKER = False, True
+            self.saved_stdout = sys.stdout
+            sys.stdout = _Sink()
+
+    def exit(self):
+        import logging
+
+        from esrally.utils import console
+
+        if not self.active:
+            return
+        self.active = False
+        if self.saved_stdout is not None:
+            import sys
+
+            sys.stdout = self.saved_stdout
+        console.QUIET, console.RALLY_RUNNING_IN_DOCKER = self.saved_console
+        logging.getLogger().removeHandler(self.handler)
+        for n, lv in self.saved_levels.items():
+            logging.getLogger(n).setLevel(lv)
+        logging.disable(self.saved_disable)
+
+
 class Sim:
     def __init__(self, spec):
         """spec: hosts [[ip,port]…], external, preserve, raceFound, plans, convs [[added, ip]…],
-        stop, timers, sched, optional injections [[at_step, src, dst, msg]…]"""
+        stop, timers, sched, optional injections [[at_step, src, dst, msg]…], optional ambient (see Ambient)"""
         global CUR
         install_patches()
         CUR = self
+        self.anomalies = []
+        self.ambient = Ambient(spec.get("ambient"), self)
+        self.ambient.enter()
+        try:
+            self._init(spec)
+        except BaseException:
+            self.ambient.exit()
+            raise
+
+    def _init(self, spec):
         from esrally.mechanic import mechanic
         from thespian.actors import ActorAddress
 
@@ -324,7 +414,6 @@ class Sim:
         self.rc_inbox = []
         self.convs = [list(c) for c in spec.get("convs", [])]
         self.timers_left = spec.get("timers", 0)
-        self.anomalies = []
         self.fail_kinds = {}  # id(BenchmarkFailure) -> (obj, canonical kind)
         self.conv_false_while_waiting = 0
         self.rng = random.Random(spec.get("sched", 0))
@@ -549,7 +638,10 @@ class Sim:
         cfg.add(config.Scope.application, "system", "race.id", "race-1")
         cfg.add(config.Scope.application, "node", "root.dir", self.tmp)
         ext = bool(self.spec["external"])
-        self.start_msg = self.mechanic.StartEngine(cfg, {"race-id": "race-1"}, sources=False, distribution=not ext, external=ext, docker=False)
+        build = (self.spec.get("ambient") or {}).get("build", "distribution")
+        self.start_msg = self.mechanic.StartEngine(
+            cfg, {"race-id": "race-1"}, sources=not ext and build in ("sources", "both"), distribution=not ext and build in ("distribution", "both"), external=ext, docker=False
+        )
         return self.start_msg
 
     def build(self, m):
@@ -638,6 +730,12 @@ class Sim:
 
     # -- running --------------------------------------------------------------------------------------
     def run(self, max_steps=400):
+        try:
+            return self._run(max_steps)
+        finally:
+            self.ambient.exit()
+
+    def _run(self, max_steps):
         inj = sorted([list(x) for x in self.spec.get("injections", [])], key=lambda x: x[0])
         steps = 0
         while steps < max_steps:
